@@ -789,3 +789,85 @@ def rule_flag_published_last(check, rule):
                     else:
                         check.holds(rule, site_of(meth, fl[0][2]), 'self.%s is set after the state it announces' % flag, key=key)
     check.floor(rule, 'flag-guarded one-time transformations', n, 1)
+
+
+# stdlib calls that read <function>.__wrapped__ / .__signature__ without the attribute being spelled at the call site
+IMPLICIT_FOLLOWERS = {
+    'signature': 'inspect.signature follows __wrapped__ and reads __signature__',
+    'from_callable': 'Signature.from_callable follows __wrapped__ and reads __signature__',
+    'unwrap': 'inspect.unwrap follows __wrapped__',
+    'getsource': 'inspect.getsource unwraps a function before locating its source',
+    'getsourcelines': 'inspect.getsourcelines unwraps a function before locating its source',
+    'getclosurevars': None,     # works on __code__/__closure__ only
+}
+# the followers the retrieval design is built on (one reason each); their exposure to the delete/restore window is finding D6,
+# reported under C17.R1 at the window itself
+REVIEWED_FOLLOWERS = {
+    'signature': "the plain retrieval itself: sigtools.signature() *is* inspect.signature plus upgrading; the window exists to control "
+                 "what this call follows",
+}
+
+
+def _is_code_object(fi, expr):
+    """expr is <x>.__code__, or a local name only ever bound to that"""
+    if isinstance(expr, ast.Attribute) and expr.attr == '__code__':
+        return True
+    if isinstance(expr, ast.Name):
+        binds = []
+        for n in _own_nodes(fi.node):
+            if isinstance(n, ast.Assign):
+                for t in n.targets:
+                    if isinstance(t, ast.Name) and t.id == expr.id:
+                        binds.append(n.value)
+            elif isinstance(n, (ast.AugAssign, ast.AnnAssign)) and isinstance(n.target, ast.Name) and n.target.id == expr.id:
+                binds.append(getattr(n, 'value', None))
+            elif isinstance(n, ast.NamedExpr) and n.target.id == expr.id:
+                binds.append(n.value)
+        if expr.id in [a for a in fi.params()[0]]:
+            return False
+        return bool(binds) and all(isinstance(b, ast.Attribute) and b.attr == '__code__' for b in binds)
+    return False
+
+
+def rule_implicit_followers(check, rule, cg=None):
+    """C17.R7: while retrieval takes __wrapped__/__signature__ away from the inspected function for the time of a window, every
+    other read of those attributes on that function runs against the window of another thread.  The reads spelled out in the code
+    are under C17.R1/R4; this rule takes the inventory of the *implicit* ones -- standard-library calls that follow the attributes
+    on the object they are handed -- in the retrieval closure: only the reviewed ones may exist."""
+    repo = check.repo
+    w = find_cm_window(repo)
+    if w is None:
+        check.holds(rule, '-', 'no delete-on-enter / restore-on-exit context manager in the package: nothing to race with', key='followers|none')
+        return
+    cg = cg or CallGraph(repo)
+    keys = retrieval_closure(check, cg)
+    n = 0
+    for k in keys:
+        fi = repo.func(k, required=False)
+        if fi is None:
+            continue
+        for c in _own_nodes(fi.node):
+            if not isinstance(c, ast.Call) or not isinstance(c.func, ast.Attribute):
+                continue
+            last = c.func.attr
+            if IMPLICIT_FOLLOWERS.get(last) is None:
+                continue
+            base = norm(c.func.value)
+            if base.split('.')[-1] not in ('inspect', 'funcsigs', 'Signature', '_inspect'):
+                continue
+            if not c.args:
+                continue
+            arg = c.args[0]
+            if _is_code_object(fi, arg) or isinstance(arg, ast.Constant):
+                check.holds(rule, site_of(fi, c), '%s.%s on a code object: no attribute is followed' % (base, last), key='followers|code|%s' % last)
+                continue
+            n += 1
+            key = 'followers|%s' % last
+            if last in REVIEWED_FOLLOWERS:
+                check.holds(rule, site_of(fi, c), 'reviewed follower %s.%s(%s): %s' % (base, last, norm(arg)[:40], REVIEWED_FOLLOWERS[last]), key=key)
+            else:
+                check.violation(rule, site_of(fi, c), '%s.%s(%s) inside retrieval: %s, so its answer depends on whether another thread is '
+                                'inside %s at that moment' % (base, last, norm(arg)[:40], IMPLICIT_FOLLOWERS[last], w.cls.name), key=key,
+                                witness='thread A inside the window (f.__wrapped__ set aside), thread B between its own window and this call: '
+                                        'B sees another function than when run alone')
+    check.floor(rule, 'implicit followers of __wrapped__/__signature__ in the retrieval closure', n, 2)
